@@ -199,12 +199,22 @@ theorem inv_call {s s' : State} {t : Nat} {op : Op} (h : Inv s) (hc : call s t o
         | fail => topen; trest
   · cases hc
 
+theorem inv_expire {s : State} (t : Nat) (h : Inv s) : Inv (expire s t) := by
+  obtain ⟨stP, outP, ever, finK, finD, jtop, jun, fin3C, spawnR, fresh, spawnC, spawnU⟩ := h
+  refine ⟨stP, outP, ever, finK, finD, ?_, ?_, fin3C, spawnR, fresh, spawnC, spawnU⟩
+  · intro u top work tl raised hw x hx
+    have := jtop u top work tl raised hw x hx
+    cases tl <;> simpa [tillOn, expire] using this
+  · intro u top work tl raised hw
+    exact okJ_state_mono (s := s) (s' := expire s t) (fun x hx => hx) (jun u top work tl raised hw)
+
 theorem reach_inv {s : State} (h : sys.Reach s) : Inv s := by
   refine Sys.Reach.invariant sys (P := Inv) ?_ ?_ ?_ h
   · rintro s rfl; exact inv_init
-  · rintro s s' hi (⟨t, op, hc⟩ | ⟨x, rfl⟩)
+  · rintro s s' hi (⟨t, op, hc⟩ | ⟨x, rfl⟩ | ⟨t, rfl⟩)
     · exact inv_call hi hc
     · exact inv_fireTill x hi
+    · exact inv_expire t hi
   · intro s s' t l hi hs; exact inv_step hi hs
 
 end MoThreads.ThreadTree
